@@ -62,6 +62,8 @@ type Thread struct {
 	yielding  bool
 	blockedBy []bool // fair scheduling: ids that must be scheduled (or become disabled) before this one
 	own       int64  // scheduling decisions that chose this thread
+	local     uint64 // hash of (site, shared dump) at the points where this thread was resumed in its current operation
+	bases     []siteSeen // (site, local hash on first arrival) in arrival order: a revisit is a loop back-edge
 	seen      []siteSeen
 	Name      string
 }
@@ -76,6 +78,9 @@ type Point struct {
 	Choice  int   // index into Enabled
 	// RunningEnabled: Enabled[0] is the arriving thread, i.e. choosing another index is a preemption.
 	RunningEnabled bool
+	Key            uint64 // state key before the choice (only with Config.Dump)
+	DbgDump        uint64
+	DbgLocals      []uint64
 }
 
 // Dev is one deviation from the default schedule: at scheduling point Idx take alternative Alt.
@@ -87,6 +92,10 @@ type Config struct {
 	Choose   func(p *Point) int // optional callback instead of Devs (must not be used in race builds)
 	MaxSteps int64              // horizon; 0 = 1e6
 	Monitor  func()             // called at every scheduling point with every controlled thread parked
+	// Dump, when set, returns a hash of the shared state the driver's threads can observe. It enables
+	// Point.Key, a hash of the complete state of the closed system (shared state + every thread's
+	// control state, the latter derived from what the thread has observed at its own scheduling points).
+	Dump func() uint64
 }
 
 type Execution struct {
@@ -109,6 +118,9 @@ type Execution struct {
 }
 
 var active *Execution
+
+// DebugKeys makes Point carry the components of Key (diagnostics only).
+var DebugKeys bool
 
 func Active() bool { return active != nil }
 
@@ -409,6 +421,36 @@ func (e *Execution) schedule(t *Thread, exiting bool) {
 		}
 	}
 	p := Point{Thread: t.ID, Kind: t.pending.Kind, Site: t.pending.Site, Enabled: en, RunningEnabled: running}
+	var dump uint64
+	if e.cfg.Dump != nil {
+		dump = e.cfg.Dump()
+		k := mix(0x9e3779b97f4a7c15, dump)
+		for _, th := range e.threads {
+			k = mix(k, th.local)
+			k = mix(k, th.pending.Site)
+			f := uint64(th.pending.Kind) << 2
+			if th.finished {
+				f |= 1
+			}
+			if isEn[th.ID] {
+				f |= 2
+			}
+			k = mix(k, f)
+			for id, b := range th.blockedBy {
+				if b {
+					k = mix(k, uint64(id)+0x100)
+				}
+			}
+		}
+		k = mix(k, uint64(t.ID))
+		p.Key = k
+		if DebugKeys {
+			p.DbgDump = dump
+			for _, th := range e.threads {
+				p.DbgLocals = append(p.DbgLocals, mix(th.local, th.pending.Site))
+			}
+		}
+	}
 	idx := 0
 	if e.cfg.Choose != nil {
 		idx = e.cfg.Choose(&p)
@@ -455,6 +497,9 @@ func (e *Execution) schedule(t *Thread, exiting bool) {
 		}
 	}
 	next.own++
+	if e.cfg.Dump != nil {
+		next.observe(dump)
+	}
 	if next == t {
 		return
 	}
@@ -464,6 +509,41 @@ func (e *Execution) schedule(t *Thread, exiting bool) {
 		return
 	}
 	t.gate.wait()
+}
+
+// observe folds what the thread sees when it is resumed at its pending site into its control-state
+// hash. Coming back to a site already visited in the current operation is a loop back-edge; the loops of
+// the code under the object-level drivers (polling loops of streams.Stdin) carry no state from one
+// iteration to the next, so the hash is rewound to its value at the first arrival (stated assumption of
+// the reachable-state search; the bounded DFS does not depend on it).
+func (th *Thread) observe(dump uint64) {
+	s := th.pending.Site
+	for k := range th.bases {
+		if th.bases[k].site == s {
+			th.local = uint64(th.bases[k].foreign)
+			th.bases = th.bases[:k+1]
+			th.local = mix(mix(th.local, s), dump)
+			return
+		}
+	}
+	th.bases = append(th.bases, siteSeen{s, int64(th.local)})
+	th.local = mix(mix(th.local, s), dump)
+}
+
+// OpBoundary is called by a driver thread when it starts a new operation: its control state is then
+// fully described by tag (operation index and whatever else the driver carries over).
+func OpBoundary(tag uint64) {
+	if _, t := Self(); t != nil {
+		t.local = mix(0x1234567, tag)
+		t.bases = t.bases[:0]
+	}
+}
+
+func mix(h, v uint64) uint64 {
+	h ^= v + 0x9e3779b97f4a7c15 + (h << 6) + (h >> 2)
+	h *= 0xff51afd7ed558ccd
+	h ^= h >> 33
+	return h
 }
 
 func (e *Execution) finish() {
